@@ -542,7 +542,7 @@ def check_inputs(model, inputs, vectorize, solver="euler", T=1.0, dt=0.05, only_
         times = np.arange(rows) * (T / rows)
         sol = solve_ivp(f, (0.0, T), [y0[v] for v in svars], t_eval=times, rtol=1e-11, atol=1e-13, method="DOP853", max_step=dt)
         ref = {v: sol.y[i] for i, v in enumerate(svars)}
-    tol = dict(rtol=1e-7, atol=1e-10) if solver != "scipy" else dict(rtol=2e-5, atol=2e-7)
+    tol = dict(rtol=1e-7, atol=1e-10) if solver != "scipy" else dict(rtol=2e-4, atol=2e-6)
     for key, path in outputs.items():
         if only_vars is not None and path not in only_vars:
             continue
